@@ -135,7 +135,25 @@ def field_variants(cls, typ, quant, name):
     if typ == 'string':
         return [('None', lambda: None)]
     if typ == 'type_param':
-        return [('none', lambda: [])]
+        return [('none', lambda: []), ('bounded', lambda: [P(ast.TypeVar(name='T', bound=opaque_expr('bound')))])]
+    if typ == 'pattern':
+        cap = lambda n: P(ast.MatchAs(pattern=None, name=n))
+        vs = [('capture', lambda: cap('c1')), ('wildcard', lambda: P(ast.MatchAs(pattern=None, name=None))),
+              ('value', lambda: P(ast.MatchValue(value=opaque_expr('v')))),
+              ('as-pattern', lambda: P(ast.MatchAs(pattern=P(ast.MatchValue(value=opaque_expr('v'))), name='c2'))),
+              ('sequence-with-star', lambda: P(ast.MatchSequence(patterns=[cap('c3'), P(ast.MatchStar(name='rest'))]))),
+              ('star-wildcard', lambda: P(ast.MatchSequence(patterns=[P(ast.MatchStar(name=None))]))),
+              ('mapping-rest', lambda: P(ast.MatchMapping(keys=[opaque_expr('k')], patterns=[cap('c4')], rest='kw'))),
+              ('class', lambda: P(ast.MatchClass(cls=opaque_expr('cls'), patterns=[cap('c5')], kwd_attrs=['a'], kwd_patterns=[cap('c6')]))),
+              ('or', lambda: P(ast.MatchOr(patterns=[cap('c7'), P(ast.MatchAs(pattern=P(ast.MatchValue(value=opaque_expr('v'))), name='c7'))])))]
+        if quant == '*' and cls is ast.MatchOr:
+            # grammar: two or more alternatives binding the same names
+            return [('two-captures', lambda: [cap('d1'), cap('d1')])] + [(l + '|capture', (lambda t=t: [t(), cap('c1')])) for l, t in vs[:4]]
+        if quant == '*':
+            return [(l, (lambda t=t: [t()])) for l, t in vs] + [('two', lambda: [cap('d1'), P(ast.MatchStar(name='d2'))]), ('empty', lambda: [])]
+        if quant == '?':
+            return [('None', lambda: None)] + vs
+        return vs
     if typ == 'operator':
         return [('Add', ast.Add)]
     if typ == 'expr_context':
